@@ -3,6 +3,7 @@ code runs over IEEE binary64/binary32 proxies (QF_FP).  PARTIAL: only the clause
 from .. import env
 
 PROPERTY = "C07"
+CROSS_CHECK = True      # thorough: dumped assertion queries are re-decided by z3 4.8.12 and cvc5 1.0
 LEVEL = "model_checking"
 TECHNIQUE = "symbolic execution of the real sizing code over IEEE-754 proxies (z3 QF_FP / QF_BV); per-binade unsat for the count-min width clause; ln/log2/exp uninterpreted"
 STUBS = ["float/int/math/_FPR_STRUCT in probables.blooms.bloom -> binary64/binary32 proxies, math.log uninterpreted",
